@@ -17,8 +17,13 @@
 (*  Heap       an operation sequence on HeapSelection with the array and   *)
 (*             peek() after every prefix.                                  *)
 (*  KnnPredict one fitted estimator and its predictions for some queries.  *)
+(*  LinFind    LinearKNNSearch::find on a key vector enumerated by         *)
+(*             LinearFind.tla, with the order the model predicts.          *)
+(*  Tree       one real CoverTree (structure read through serde) with its  *)
+(*             find / find_radius answers, for the comparison with the     *)
+(*             design model CoverTree.tla.                                 *)
 (***************************************************************************)
-EXTENDS KnnVote, HeapOps, TLC, Json, IOUtils
+EXTENDS KnnVote, HeapOps, CoverTree, TLC, Json, IOUtils
 
 Rec == ndJsonDeserialize(IOEnv.TRACE)
 
@@ -93,7 +98,7 @@ HStep(s, op) ==      \* s = [st, off, dirty, inDisc]
       [] op[1] = 2 -> [st |-> IF s.st.heap = <<>> THEN s.st ELSE SetRoot(s.st, <<op[2], 0>>),
                        off |-> InsAsc(s.off, op[2]), dirty |-> TRUE,
                        inDisc |-> /\ s.inDisc /\ ~s.dirty /\ s.st.n >= s.st.k /\ s.st.heap # <<>>
-                                  /\ op[2] < D(s.st.heap[1])]
+                                  /\ op[2] < Dv(s.st.heap[1])]
       [] OTHER     -> [st |-> Heapify(s.st), off |-> s.off, dirty |-> FALSE, inDisc |-> s.inDisc]
 
 RECURSIVE HRun(_, _, _)
@@ -147,12 +152,53 @@ EstHits(e, clause) ==
                   [] x = "EstTieAtK" -> Count(ties)
                   [] x = "EstDistance" -> IF e.weight = "distance" THEN Len(e.preds) ELSE 0]
 
+
+(***************************************************************************)
+(* Tree.  The answers of the real tree are judged by IsKnn / IsRadius like *)
+(* any other (failure = BAD).  Beyond that the event binds the design      *)
+(* model to the code: the real structure must equal the tree built by the  *)
+(* transcribed batch_insert, satisfy the structural invariants, and the    *)
+(* real find / find_radius must return what the transcribed ones return,   *)
+(* in the same order.  Any difference there is MODEL-DRIFT (counted, not a *)
+(* failure): the property does not prescribe the shape of the tree.        *)
+(***************************************************************************)
+RECURSIVE ToModel(_)
+ToModel(nd) == [idx |-> nd.idx + 1, maxDist |-> nd.maxDist, parentDist |-> nd.parentDist, scale |-> nd.scale,
+                children |-> [j \in 1..Len(nd.children) |-> ToModel(nd.children[j])]]
+
+TreeDm(e) == [i \in 1..Len(e.D) |-> [j \in 1..Len(e.D) |-> Key("man", 1, e.D[i], e.D[j])]]
+Plain(res) == [j \in 1..Len(res) |-> [i |-> res[j].i, key |-> res[j].key]]
+LatView(e) == [src |-> "lat", D |-> e.D]       \* what EntryPtsOK needs
+
+TreeQueryOK(e, qr, keys) ==
+    /\ \A j \in 1..Len(qr.finds) : FindOK(LatView(e), keys, qr.finds[j])
+    /\ \A j \in 1..Len(qr.radii) : RadiusOK(LatView(e), keys, qr.radii[j])
+
+TreeClause(e) ==
+    IF e.build # "ok" THEN "Build"
+    ELSE LET b == { j \in 1..Len(e.qs) : ~TreeQueryOK(e, e.qs[j], Keys("man", 1, e.D, e.qs[j].q)) }
+         IN  IF b # {} THEN "TreeQuery:q=" \o ToString(MinOf(b)) ELSE "ok"
+
+TreeStructDrift(e, dm, real) ==
+    \/ real # Build(dm).node
+    \/ real # e.expect
+    \/ ~TreeInv(dm, real)
+
+TreeFindDrift(e, real) ==
+    \E j \in 1..Len(e.qs) :
+        LET dq == Keys("man", 1, e.D, e.qs[j].q) IN
+        \/ \E f \in 1..Len(e.qs[j].finds) :
+              Plain(e.qs[j].finds[f].res) # Find(dq, real, e.qs[j].finds[f].k)
+        \/ \E r \in 1..Len(e.qs[j].radii) :
+              Plain(e.qs[j].radii[r].res) # FindRadius(dq, real, e.qs[j].radii[r].rkey)
+
 (***************************************************************************)
 (* The step: consume one line.                                             *)
 (***************************************************************************)
 HitNames == {"Sweep", "Find", "FindErr", "Radius", "RadiusErr", "RadiusAt", "TieAtK", "QueryInData", "NonTrivial", "BuildFail",
              "linear", "cover", "man", "euc", "mink", "ham", "lat", "cont",
-             "Heap", "HeapDrift", "HeapTlc",
+             "Heap", "HeapDrift", "HeapTlc", "Tree", "TreeDrift", "TreeFindDrift", "TreeFind",
+             "LinFind", "LinDrift",
              "KnnPredict", "ClsPred", "RegPred", "EstErr", "EstUnconstrained", "EstTieAtK", "EstDistance", "EstFail", "EstSkipped"}
 
 Bump(h, d) == [x \in DOMAIN h |-> IF x \in DOMAIN d THEN h[x] + d[x] ELSE h[x]]
@@ -171,6 +217,20 @@ HeapStep(e, run) == LET c == HeapClause(e, run) IN
                        [] x = "HeapDrift" -> IF c = "ok" /\ HeapDrift(e, run) THEN 1 ELSE 0
                        [] x = "HeapTlc" -> IF e.src = "tlc" THEN 1 ELSE 0])
 
+TreeStep(e, dm, real) == LET c == TreeClause(e) IN
+    Account(e, c, [x \in {"Tree", "TreeDrift", "TreeFindDrift", "TreeFind"} |->
+                     CASE x = "Tree" -> 1
+                       [] x = "TreeDrift" -> IF c = "ok" /\ TreeStructDrift(e, dm, real) THEN 1 ELSE 0
+                       [] x = "TreeFindDrift" -> IF c = "ok" /\ TreeFindDrift(e, real) THEN 1 ELSE 0
+                       [] x = "TreeFind" -> IF c = "ok" THEN Len(e.qs) * (Len(e.qs[1].finds) + Len(e.qs[1].radii)) ELSE 0])
+
+LinStep(e) ==
+    LET ok == e.status = "ok" /\ IsKnn(e.keys, e.k, e.res) IN
+    Account(e, IF ok THEN "ok" ELSE "LinFind:k=" \o ToString(e.k),
+            [x \in {"LinFind", "LinDrift"} |->
+               CASE x = "LinFind" -> 1
+                 [] x = "LinDrift" -> IF ok /\ [j \in 1..Len(e.res) |-> e.res[j].i] # e.expect THEN 1 ELSE 0])
+
 EstStep(e) ==
     IF ~EstFits(e) THEN Account(e, "ok", One({"KnnPredict", "EstSkipped"}))
     ELSE LET c == EstClause(e) IN Account(e, c, One({"KnnPredict"}) @@ EstHits(e, c))
@@ -182,6 +242,9 @@ Step ==
     /\ CASE e.ev = "Sweep" -> SweepStep(e, SweepKeys(e))
          [] e.ev = "Heap" -> HeapStep(e, HRun([st |-> New(e.k), off |-> <<>>, dirty |-> FALSE, inDisc |-> TRUE], e.ops, 1))
          [] e.ev = "KnnPredict" -> EstStep(e)
+         [] e.ev = "LinFind" -> LinStep(e)
+         [] e.ev = "Tree" -> IF e.build = "ok" THEN TreeStep(e, TreeDm(e), ToModel(e.tree))
+                             ELSE Account(e, "Build", One({"Tree"}))
          [] OTHER -> Bad(e, "unknown event") /\ nbad' = nbad + 1 /\ UNCHANGED hits
 
 Init == l = 1 /\ nbad = 0 /\ hits = [x \in HitNames |-> 0]
